@@ -1,7 +1,7 @@
 (* Entry points of the executable model, by name. One dispatcher so that the OCaml driver and
    the in-Coq case files need no per-function glue. *)
 From Coq Require Import ZArith NArith List String Bool.
-From Sia Require Import Prim.Result Prim.Tok Currency.Model Merkle.Tree Merkle.Forest Merkle.Acc Merkle.Rhp Policy.Model Pow.Model Codec.Schema Codec.Shape Codec.Irregular Gen.Schemas Ledger.Types Ledger.Mid Ledger.Validate Ledger.Apply Hash.Ids Merkle.Multi Gateway.Outline Rhp4.Model Codec.Size Gen.Limits Codec.Framing.
+From Sia Require Import Prim.Result Prim.Tok Currency.Model Merkle.Tree Merkle.Forest Merkle.Acc Merkle.Rhp Policy.Model Pow.Model Codec.Schema Codec.Shape Codec.Irregular Gen.Schemas Ledger.Types Ledger.Mid Ledger.Validate Ledger.Apply Hash.Ids Merkle.Multi Gateway.Outline Rhp4.Model Codec.Size Gen.Limits Codec.Framing Text.Hex Text.Currency.
 Import ListNotations.
 Open Scope string_scope.
 Open Scope list_scope.
@@ -284,6 +284,20 @@ Section Dispatch.
         end) (run_parser (let* tn := pB in let* resp := pbool in let* st := pB in pret (tn, resp, st)) args)
     else None.
 
+
+  (* ---- C20: text forms ---- *)
+  Definition api_c20 (name : string) (args : list tok) : option (list tok) :=
+    match name, args with
+    | "c20.hex", [TZ k; TB s] => Some (match unmarshal_hex (Z.to_nat k) s with Some b => [TZ 0; TB b] | None => [TZ 1] end)
+    | "c20.hexenc", [TB b] => Some [TB (hex_encode b)]
+    | "c20.addr_parse", [TB s] => Some (match addr_parse H s with Some a => [TZ 0; TB a] | None => [TZ 1] end)
+    | "c20.addr_render", [TB a] => Some [TB (addr_render H a)]
+    | "c20.cur_render", [TZ c] => Some [TB (cur_render (Z.to_N c))]
+    | "c20.cur_exact", [TZ c] => Some [TB (digits (Z.to_N c))]
+    | "c20.cur_parse", [TB s] => Some (match cur_parse s with POk v => [TZ 0; tN v] | PErr => [TZ 1] | PUnmodelled => [TZ 3] end)
+    | _, _ => None
+    end.
+
   (* ---- ledger ---- *)
   Definition p_sco : parser sco := let* v := pZ in let* a := pB in pret {| sco_value := v; sco_addr := a |}.
   Definition p_sce : parser sce := let* i := pB in let* o := p_sco in let* m := pZ in pret {| sce_id := i; sce_out := o; sce_maturity := m |}.
@@ -540,6 +554,9 @@ Section Dispatch.
     match api_c19 name args with
     | Some r => r
     | None =>
+    match api_c20 name args with
+    | Some r => r
+    | None =>
     match name, args with
     | "hash", [TB b] => [TB (H b)]
     | "c12.derive", [TB nm; TB i; TZ k] => [TB (derive H nm (id_index_args i (Z.to_N k)))]
@@ -549,5 +566,5 @@ Section Dispatch.
     | "c05.leafhash", [TB e; TZ i; TZ s] => [TB (leaf_hash H (mkLeaf e (Z.to_N i) (negb (Z.eqb s 0))))]
     | "c05.proofroot", TB x :: TZ i :: ps => [TB (proofRootN H x (Z.to_N i) (List.concat (map (fun t => match t with TB b => [b] | _ => [] end) ps)))]
     | _, _ => bad_args
-    end end end end end end end end end end.
+    end end end end end end end end end end end.
 End Dispatch.
